@@ -194,6 +194,21 @@ fn run_w<const B: usize, const L: usize>(scn: &Obj) -> Value {
             ev.rec("json", || match serde_json::from_slice::<U<B, L>>(&x) { Ok(v) => ok1(v), Err(_) => err() });
             ev.rec("jsonbits", || match serde_json::from_slice::<Bits<B, L>>(&x) { Ok(v) => ok1(v), Err(_) => err() });
             ev.rec("bincode", || match bincode::deserialize::<U<B, L>>(&x) { Ok(v) => ok1(v), Err(_) => err() });
+            // the visitor's integer entry points, which the text formats above reach only for small numbers: a u64 / u128
+            // handed over by the data format (the first 8 / 16 input bytes, little-endian), and a byte-string visitor call
+            {
+                use serde::de::value::{BytesDeserializer, Error as VE, U128Deserializer, U64Deserializer};
+                use serde::Deserialize;
+                if x.len() >= 8 {
+                    let v = u64::from_le_bytes(x[..8].try_into().unwrap());
+                    ev.rec("serde_u64", || match U::<B, L>::deserialize(U64Deserializer::<VE>::new(v)) { Ok(v) => ok1(v), Err(_) => err() });
+                }
+                if x.len() >= 16 {
+                    let v = u128::from_le_bytes(x[..16].try_into().unwrap());
+                    ev.rec("serde_u128", || match U::<B, L>::deserialize(U128Deserializer::<VE>::new(v)) { Ok(v) => ok1(v), Err(_) => err() });
+                }
+                ev.rec("serde_bytes", || match U::<B, L>::deserialize(BytesDeserializer::<VE>::new(&x)) { Ok(v) => ok1(v), Err(_) => err() });
+            }
             {
                 use num_bigint::{BigInt, BigUint, Sign};
                 ev.rec("biguint", || match U::<B, L>::try_from(BigUint::from_bytes_le(&x)) { Ok(v) => ok1(v), Err(_) => err() });
